@@ -138,6 +138,26 @@ Definition assign_into (d : dty) (src : tarr) : tarr := astype d src.
 Definition cmp_arr (f : Z -> Z -> bool) (a b : tarr) : list bool :=
   map (fun p => f (fst p) (snd p)) (combine (tv a) (tv b)).
 
+(* ---- Numba (nopython) scalar arithmetic on elements of index arrays: integer operands are widened to at
+   least the machine word, keeping signedness when both agree; signed with unsigned gives int64 (also for
+   uint64: Numba does not follow NumPy's float64 there).  Validated against real Numba by the prim stream. *)
+Definition nb_promote (a b : ity) : dty :=
+  if Bool.eqb (sg a) (sg b) then DInt (mkI (Z.max (Z.max (bits a) (bits b)) 64) (sg a))
+  else DInt i64.
+Definition nb_promote_d (a : dty) (b : ity) : dty :=
+  match a with DInt x => nb_promote x b | DInf => DInf | DFloat => DFloat end.
+(* a[i] <op> k for every i, k a Numba integer of type kt *)
+Definition nb_arr_sc (op : Z -> Z -> Z) (a : tarr) (kt : ity) (k : Z) : tarr :=
+  let d := nb_promote_d (tdt a) kt in mkT d (map (fun c => wr d (op c k)) (tv a)).
+(* a[i] <op> b[i] *)
+Definition nb_arr_arr (op : Z -> Z -> Z) (a b : tarr) : tarr :=
+  let d := match tdt a, tdt b with
+           | DInt x, DInt y => nb_promote x y
+           | DInf, _ | _, DInf => DInf
+           | _, _ => DFloat end in
+  mkT d (map (fun p => wr d (op (fst p) (snd p))) (combine (tv a) (tv b))).
+Definition cmp_arr_sc (f : Z -> Z -> bool) (a : tarr) (k : Z) : list bool := map (fun c => f c k) (tv a).
+
 (* np.diff(a): consecutive differences, computed in a's own dtype (wraps for unsigned types) *)
 Definition np_diff (a : tarr) : list Z :=
   map (fun p => wr (tdt a) (snd p - fst p)) (combine (tv a) (tl (tv a))).
